@@ -37,6 +37,8 @@ def worlds(tier):
         w.W("three-invocations-of-one-operator-havoc-release_taskgraphs", w.fixed_times(w.chain(3)), w.C2, "HAVOC", split=8,
             havoc=dict(hv, release_taskgraphs=True, max_unplaced=0, first_pool_only=True), weight=60,
             tasks={f"T{i}": dict({"strategies": [{"rt": RT3}], "operator": "Camera", "timestamp": i}, **({"release": ["sym", 0, 4]} if i else {})) for i in range(3)}),
+        w.W("fork-children-with-their-own-release-times-EDF", w.fixed_times(w.fork()), w.C2, "EDF", split=6, weight=30,
+            tasks={"A": {"strategies": [{"rt": RT3}]}, "B": {"strategies": [{"rt": 2}], "release": ["sym", 0, 6]}, "C": {"strategies": [{"rt": 2}], "release": ["sym", 0, 6]}}),
         w.W("join-havoc-release_taskgraphs-2cpu", w.fixed_times(w.join()), w.C2, "HAVOC", split=8,
             havoc=dict(hv, release_taskgraphs=True, max_unplaced=0), tasks=small(("A", "B", "C")), weight=60),
     ]
@@ -47,8 +49,6 @@ def worlds(tier):
             w.W("cond3-1cpu-FIFO", w.fixed_times(w.cond3()), w.C1, "FIFO", split=7, weight=60),
             w.W("cond-uneven-2cpu-EDF", w.fixed_times(w.cond_uneven()), w.C2, "EDF", split=7, weight=60),
             w.W("cond2-1cpu-EDF", w.cond2(), w.C1, "EDF", split=8, weight=300),
-            w.W("cond2-havoc-lookahead-retract", w.fixed_times(w.cond2()), w.C2, "HAVOC", split=9,
-                havoc=dict(hv, lookahead="sym", retract=True, max_unplaced=0, first_pool_only=True), tasks=small(CJ), weight=300),
             w.W("cond-tail-havoc-release_taskgraphs", w.fixed_times(w.cond_tail()), w.C2, "HAVOC", split=9,
                 havoc=dict(hv, release_taskgraphs=True, max_unplaced=0, first_pool_only=True, future=False), tasks=small(("C", "a", "b", "J", "Z")), weight=300),
             w.W("fork-child-release-times-EDF", w.fork(), w.C2, "EDF", split=8, tasks={"B": {"release": "sym"}, "C": {"release": "sym"}}, weight=200),
